@@ -242,8 +242,8 @@ func C14(c *Ctx) {
 			buf := stripConv(Arg(enc, 1))
 			for _, call := range CallsTo(start, "io.ReadFull") {
 				if stripConv(Arg(call, 1)) == buf {
-					if g := loadOfGlobal(Arg(call, 0)); g != nil && g.Pkg.Pkg.Path() == "crypto/rand" {
-						if e := ErrResult(call); e != nil && ErrNilAt(putState.Call.(ssa.Instruction), e) {
+					if c.isCryptoRandReader(Arg(call, 0)) {
+						if e := ErrResult(call); e != nil && HoldsAt(putState.Call.(ssa.Instruction), func(f Fact) bool { return f.SaysNil(e) }) {
 							fresh = true
 						}
 					}
@@ -430,6 +430,32 @@ func concatFormat(v ssa.Value, fn *ssa.Function, d int) string {
 		return l + r
 	case *ssa.Convert:
 		return concatFormat(x.X, fn, d+1)
+	case *ssa.Call:
+		// strings.Join([]string{a, b, c}, sep)
+		if Callee(x) == "strings.Join" && len(x.Call.Args) == 2 {
+			sep, okSep := ConstStr(x.Call.Args[1])
+			elems := varargElems(x.Call.Args[0])
+			if !okSep || len(elems) == 0 {
+				return ""
+			}
+			out := ""
+			for i, e := range elems {
+				if e == nil {
+					return ""
+				}
+				p := concatFormat(e, fn, d+1)
+				if p == "" {
+					if s, isC := ConstStr(e); !isC || s != "" {
+						return ""
+					}
+				}
+				if i > 0 {
+					out += sep
+				}
+				out += p
+			}
+			return out
+		}
 	}
 	return ""
 }
